@@ -235,8 +235,22 @@ def mps_tensors(desc):
     return out
 
 
+def _container(desc):
+    """Charges are handed to the constructors as lists, tuples, int64 or int32 arrays (chosen by the case seed)."""
+    k = desc['seed'] % 4
+    qd, qD = desc['qd'], desc['qD']
+    if k == 1:
+        return tuple(qd), tuple(tuple(q) for q in qD)
+    if k == 2:
+        return np.array(qd, dtype=np.int64), [np.array(q, dtype=np.int64) for q in qD]
+    if k == 3 and max([abs(x) for x in qd] + [abs(x) for q in qD for x in q] + [0]) < 2**24:
+        return np.array(qd, dtype=np.int32), [np.array(q, dtype=np.int32) for q in qD]
+    return list(qd), [list(q) for q in qD]
+
+
 def build_mps(desc):
-    psi = ptn.MPS(desc['qd'], desc['qD'], fill='postpone')
+    qd, qD = _container(desc)
+    psi = ptn.MPS(qd, qD, fill='postpone')
     psi.A = mps_tensors(desc)
     return psi
 
@@ -255,7 +269,8 @@ def mpo_tensors(desc):
 
 
 def build_mpo(desc):
-    op = ptn.MPO(desc['qd'], desc['qD'], fill='postpone')
+    qd, qD = _container(desc)
+    op = ptn.MPO(qd, qD, fill='postpone')
     op.A = mpo_tensors(desc)
     return op
 
@@ -345,7 +360,16 @@ def block_matrix(q0, q1, seed, style):
         # also duplicate rows sometimes
         if rng.random() < 0.5:
             A[rng.integers(0, len(q0))] = A[rng.integers(0, len(q0))]
-    return np.where(q0a[:, None] == q1a[None, :], A, 0)
+    A = np.where(q0a[:, None] == q1a[None, :], A, 0)
+    # memory layout of the argument: C order, Fortran order, or a strided view into a larger buffer
+    layout = seed % 3
+    if layout == 1:
+        A = np.asfortranarray(A)
+    elif layout == 2:
+        big = np.zeros((2 * A.shape[0] + 1, 2 * A.shape[1] + 1), dtype=A.dtype)
+        big[1::2, 1::2] = A
+        A = big[1::2, 1::2]
+    return A
 
 
 # --------------------------------------------------------------------------------------
